@@ -102,17 +102,25 @@ CheckOpt(e) ==
   >>)
 
 (* ---------------- C17: canonical output is a fixed point ---------------- *)
-(* F03 (the SearchParams serializer leaves % & + = unescaped) makes query-rewriting profiles non-idempotent exactly
-   when the form-urlencoded parse of the first output's query has a name or value containing one of those characters *)
-HasDelimCp(s) == \E i \in 1..Len(s) : s[i] \in {37, 38, 43, 61}
-QueryHasDelims(q) == LET lst == ParseQ(q) IN \E i \in 1..Len(lst) : HasDelimCp(lst[i][1]) \/ HasDelimCp(lst[i][2])
-(* F14 (skip-equals serializes an empty-name/empty-value pair as nothing): the first output's query has an empty item *)
-QueryHasEmptyItem(q) == q # <<>> /\ \E i \in 1..Len(Split(q, 38)) : Split(q, 38)[i] = <<>>
+(* Known findings are characterised through MODELLED parts only: the list stored in the first output (e.yp, snapshot)
+   and the serializer the library uses (UrlApi!SerQImplO, named deviation ImplQueryEscape):
+     F03  the stored list is not faithfully serialized because a name/value contains a delimiter the serializer leaves
+          unescaped (% followed by two hex digits, & + =)
+     F14  under skip-equals (GoogleSafeBrowsing) a pair with empty name AND empty value serializes to nothing *)
+ImplEscT(S, t) == Flat([i \in 1..Len(t) |-> IF t[i] = 32 THEN <<43>> ELSE EncCp(S, t[i])])
+RECURSIVE SerImplT(_, _, _)
+SerImplT(S, skipEq, lst) ==
+  IF lst = <<>> THEN <<>>
+  ELSE ImplEscT(S, lst[1][1]) \o (IF skipEq /\ lst[1][2] = <<>> THEN <<>> ELSE <<61>>) \o ImplEscT(S, lst[1][2])
+       \o (IF Len(lst) > 1 THEN <<38>> \o SerImplT(S, skipEq, Tail(lst)) ELSE <<>>)
+IsGsbLike(prof) == prof \in {"GoogleSafeBrowsing"}
+Unfaithful(prof, lst) == ParseQ(SerImplT(SetQuery, IsGsbLike(prof), lst)) # lst
+HasEmptyPair(lst) == \E i \in 1..Len(lst) : lst[i][1] = <<>> /\ lst[i][2] = <<>>
 CheckIdem(e) ==
   Verdicts(<<
     <<"crash", ~(Crashed(e.y) \/ Crashed(e.z))>>,
-    <<IF ~e.y.fail /\ QueryHasDelims(e.y.g.query) THEN "not idempotent [query has a name/value with % & + =]"
-      ELSE IF ~e.y.fail /\ QueryHasEmptyItem(e.y.g.query) THEN "not idempotent [query has an empty item]"
+    <<IF ~e.y.fail /\ IsGsbLike(e.prof) /\ HasEmptyPair(e.yp) THEN "not idempotent [F14: stored list has an empty-name/empty-value pair under skip-equals]"
+      ELSE IF ~e.y.fail /\ Unfaithful(e.prof, e.yp) THEN "not idempotent [F03: stored list is not faithfully serialized]"
       ELSE "not idempotent",
       e.y.fail \/ (~e.z.fail /\ e.z.g.href = e.y.g.href)>>
   >>)
@@ -125,7 +133,11 @@ CheckClass(e) ==
         \A i \in 1..Len(e.outs) : e.outs[i].fail = e.outs[1].fail /\ (~e.outs[1].fail => e.outs[i].g.href = e.outs[1].g.href)>>
   >>)
 
+(* ---------------- C02: total API - the specification's action is  result' \in {error} \cup AnyUrl ---------------- *)
+CheckRobust(e) == Verdicts(<< <<"a public call panicked, hung or returned (nil, nil)", e.bad = <<>>>> >>)
+
 Check(e) == CASE e.k = "law" -> CheckLaw(e)
+              [] e.k = "robust" -> CheckRobust(e)
               [] e.k = "opt" -> CheckOpt(e)
               [] e.k = "idem" -> CheckIdem(e)
               [] e.k = "class" -> CheckClass(e)
